@@ -15,9 +15,12 @@ RULE = ('exhaustive: n=1..6 and all 2^n-1 non-empty ascending subsets x state ki
         'projection with an explicit bit mask, reference state tracked through the dense reference unitary of the prefix/suffix. Non-trivial = the '
         'complement of the subset splits into >=2 groups or the state has a zero-probability outcome. Distinct = (n, subset, state kind).')
 ASSUMPTIONS = ['no frequency test: the property claims support and Born probabilities, not a sampling distribution',
-               'input states are normalised (np.random.Generator.choice requires probabilities summing to one)']
+               'input states are normalised (np.random.Generator.choice requires probabilities summing to one)',
+               'float32/complex64 states are outside the domain for the same reason: a state normalised to single precision has probabilities summing to one '
+               'only to ~1e-7 and Generator.choice (tolerance ~1.5e-8) rejects them with a ValueError - a clean rejection, not a wrong answer; real float64 '
+               'and integer basis states are inside']
 
-KINDS = ['haar', 'product', 'ghz', 'w', 'basis', 'sparse', 'real']
+KINDS = ['haar', 'product', 'ghz', 'w', 'basis', 'sparse', 'real', 'real_f64', 'basis_int']  # single precision: see ASSUMPTIONS
 
 
 def _nq():
@@ -50,6 +53,18 @@ def make_state(r, n, kind):
         v = np.zeros(N, dtype=np.complex128)
         v[idx] = ref.rand_complex(r, len(idx))
         return v / np.linalg.norm(v)
+    if kind == 'real_f64':  # a real state held in a real dtype
+        v = r.normal(size=N)
+        return v / np.linalg.norm(v)
+    if kind == 'real_f32':
+        v = r.normal(size=N)
+        return (v / np.linalg.norm(v)).astype(np.float32)
+    if kind == 'basis_int':  # a computational basis state written down with integers
+        v = np.zeros(N, dtype=np.int64)
+        v[int(r.integers(0, N))] = 1
+        return v
+    if kind == 'c64':
+        return ref.rand_state(r, N).astype(np.complex64)
     v = r.normal(size=N).astype(np.complex128)
     return v / np.linalg.norm(v)
 
@@ -65,6 +80,11 @@ def n_groups_complement(n, keep):
     return g
 
 
+def _tolf(psi):
+    """tolerance factor: single-precision states carry 6e-8 relative rounding per amplitude"""
+    return 3e5 if np.asarray(psi).dtype in (np.float32, np.complex64) else 1.0
+
+
 def check_measure(ctx, psi, n, keep, seed, form=0):
     """one call of measure_quantum_vector judged against the explicit projective measurement"""
     nq = _nq()
@@ -73,13 +93,14 @@ def check_measure(ctx, psi, n, keep, seed, form=0):
     layout = ['C', 'strided', 'readonly'][((seed if isinstance(seed, int) else 0) + len(keep) + form + n) % 3]  # a slice of a larger array / a read-only array holds the same state
     ctx.label('state layout=' + layout)
     psi_in = ref.with_layout(psi, layout)
+    f = _tolf(psi)
     bits, prob, q1 = nq.sim.state.measure_quantum_vector(psi_in, arg, seed=seed)
     ctx.close(psi_in, psi, 0, 'input state not modified')
     want_p = ref.born_marginal(psi, n, keep)
     ctx.require(np.shape(prob) == (2 ** len(keep),), 'probability vector length', f'{np.shape(prob)}')
-    ctx.close(prob, want_p, 1e-12, 'probabilities = Born marginals')
+    ctx.close(prob, want_p, 1e-12 * f, 'probabilities = Born marginals')
     ctx.require(np.all(np.asarray(prob) >= -1e-15), 'probabilities non-negative')
-    ctx.close(np.sum(prob), 1.0, 1e-12, 'probabilities sum to one')
+    ctx.close(np.sum(prob), 1.0, 1e-12 * f, 'probabilities sum to one')
     ctx.require(len(bits) == len(keep) and all(b in (0, 1) for b in bits), 'bit string has one bit per measured qubit', f'{bits}')
     o = 0
     for b in bits:
@@ -87,8 +108,8 @@ def check_measure(ctx, psi, n, keep, seed, form=0):
     ctx.require(want_p[o] > 1e-14, 'reported outcome has non-zero probability', f'bits={bits} p={want_p[o]}')
     proj = ref.project_outcome(psi, n, keep, bits)
     want = proj / np.sqrt(want_p[o])
-    ctx.close(q1, want, 1e-10, 'post-measurement state = normalised projection onto the outcome')
-    ctx.close(np.linalg.norm(q1), 1.0, 1e-10, 'post-measurement state normalised')
+    ctx.close(q1, want, 1e-10 * f, 'post-measurement state = normalised projection onto the outcome')
+    ctx.close(np.linalg.norm(q1), 1.0, 1e-10 * f, 'post-measurement state normalised')
     return bits, o, q1
 
 
@@ -131,8 +152,8 @@ def run_subsets(ctx, case):
             # repeatability: measuring again gives the same bits with certainty and leaves the state unchanged
             bits3, prob3, q3 = nq.sim.state.measure_quantum_vector(q1.copy(), tuple(keep), seed=seed + 1)
             ctx.require(list(bits3) == list(bits), 're-measurement returns the same outcome', f'{bits} -> {bits3}')
-            ctx.close(prob3[o], 1.0, 1e-12, 're-measurement outcome has probability one')
-            ctx.close(q3, q1, 1e-12, 're-measurement leaves the state unchanged')
+            ctx.close(prob3[o], 1.0, 1e-12 * _tolf(psi), 're-measurement outcome has probability one')
+            ctx.close(q3, q1, 1e-12 * _tolf(psi), 're-measurement leaves the state unchanged')
             ctx.tick()
         for obj, cp in kept:
             ctx.close(obj, cp, 0, 'a post-measurement state returned earlier is not overwritten by later measurements')
@@ -209,19 +230,20 @@ def run_circuit(ctx, case):
         if rep == 1:
             psi = make_state(r, n, 'haar')
         out = circ.apply_state(psi.copy())
+        f = _tolf(psi)
         s1 = segs[0] @ psi
         p1 = ref.born_marginal(s1, n, case['m1'])
-        ctx.close(g1.probability, p1, 1e-10, 'recorded probabilities refer to the state at that point of the circuit (first measurement)')
+        ctx.close(g1.probability, p1, 1e-10 * f, 'recorded probabilities refer to the state at that point of the circuit (first measurement)')
         o1 = int(''.join(str(int(b)) for b in g1.bitstr), 2)
         ctx.require(p1[o1] > 1e-14, 'recorded outcome has non-zero probability')
         s1p = ref.project_outcome(s1, n, case['m1'], g1.bitstr) / np.sqrt(p1[o1])
         s2 = segs[1] @ s1p
         p2 = ref.born_marginal(s2, n, case['m2'])
-        ctx.close(g2.probability, p2, 1e-10, 'recorded probabilities refer to the state at that point of the circuit (second measurement)')
+        ctx.close(g2.probability, p2, 1e-10 * f, 'recorded probabilities refer to the state at that point of the circuit (second measurement)')
         o2 = int(''.join(str(int(b)) for b in g2.bitstr), 2)
         ctx.require(p2[o2] > 1e-14, 'recorded outcome has non-zero probability (second)')
         s2p = ref.project_outcome(s2, n, case['m2'], g2.bitstr) / np.sqrt(p2[o2])
-        ctx.close(out, segs[2] @ s2p, 1e-10, 'final state = suffix applied to the projected state')
+        ctx.close(out, segs[2] @ s2p, 1e-10 * f, 'final state = suffix applied to the projected state')
         if not case['mid'] and set(case['m2']) <= set(case['m1']):
             sub = [g1.bitstr[case['m1'].index(q)] for q in case['m2']]
             ctx.require(list(g2.bitstr) == list(sub), 'measuring a subset again right away repeats the outcome', f'{g1.bitstr} {g2.bitstr}')
